@@ -174,6 +174,15 @@ impl<K: Kit> Drv<K> {
             p.timeout = t;
         }
     }
+    /// the goal bias is a public field of the three tree planners
+    pub fn set_goal_bias(&mut self, b: f64) {
+        match self {
+            Drv::Rrt(p) => p.goal_bias = b,
+            Drv::Star(p) => p.goal_bias = b,
+            Drv::Connect(p) => p.goal_bias = b,
+            Drv::Prm(_) => {}
+        }
+    }
     pub fn set_problem_definition(&mut self, pd: Arc<Pd<K>>) {
         match self {
             Drv::Prm(p) => p.set_problem_definition(pd),
